@@ -89,6 +89,10 @@ impl Event {
         let taglen = tags.as_bytes().len();
         let contentlen = content.len();
         let length = Self::output_size_needed(taglen, contentlen);
+        // The event length and content length are u32 fields
+        if length > u32::MAX as usize {
+            return Err(InnerError::OutOfRange(length).into());
+        }
         if output.len() < length {
             return Err(InnerError::BufferTooSmall(length).into());
         }
